@@ -298,6 +298,9 @@ def jobs(tier, seed):
             if tier == 'quick' and i != j and (i + j) % 3 and not (i >= 3 and j >= 3):
                 continue
             add('correlate', la=la, lb=lb, flags=[(i + j) % 2 == 1, j % 3 == 1])
+    # per-replica configuration lists that differ although their concatenation is the same list: must be rejected, not paired positionally
+    add('correlate_bad', la={'e|r1': [1, 2, 3, 4, 5, 6], 'e|r2': [7, 8, 9, 10, 11, 12]}, lb={'e|r1': [1, 2, 3, 4, 5, 6, 7], 'e|r2': [8, 9, 10, 11, 12]}, why='replica-boundaries')
+    add('correlate_bad', la={'e|r1': [1, 2, 3, 4, 5], 'e|r2': [6, 7, 8, 9, 10, 11]}, lb={'e|r1': [1, 2, 3, 4, 5, 6], 'e|r2': [7, 8, 9, 10, 11]}, why='replica-boundaries')
     add('correlate_bad', la=W1, lb=W1, why='covobs')
     add('correlate_bad', la={'e|r1': [1, 2, 3, 4, 5], 'f|r1': [1, 2, 3, 4, 5]}, lb={'e|r1': [1, 2, 3, 4, 5], 'f|r1': [1, 2, 3, 4, 5]}, why='multi-ens')
     # merge: all partitions of up to three replicas + duplicates
